@@ -42,6 +42,7 @@ impl CountVectorizerValidParams {
         &self,
         x: &ArrayBase<D, Ix1>,
     ) -> Result<CountVectorizer> {
+        self.validate_deserialization()?;
         // word, (integer mapping for word, document frequency for word)
         let mut vocabulary: HashMap<String, (usize, usize)> = HashMap::new();
         for string in x.iter().map(|s| transform_string(s.to_string(), self)) {
@@ -78,6 +79,7 @@ impl CountVectorizerValidParams {
         encoding: EncodingRef,
         trap: DecoderTrap,
     ) -> Result<CountVectorizer> {
+        self.validate_deserialization()?;
         // word, (integer mapping for word, document frequency for word)
         let mut vocabulary: HashMap<String, (usize, usize)> = HashMap::new();
         let documents_count = input.len();
@@ -121,6 +123,16 @@ impl CountVectorizerValidParams {
             vec_vocabulary,
             properties: self.clone(),
         })
+    }
+
+    /// A checked parameter set can be serialized as well, and it does not go through `check` again
+    /// after it has been restored: a tokenizer function that was lost on the way has to be reported
+    /// here, otherwise the documents would silently be split with the regex instead.
+    fn validate_deserialization(&self) -> Result<()> {
+        if self.tokenizer_deserialization_guard && self.tokenizer_function().is_none() {
+            return Err(PreprocessingError::TokenizerNotSet);
+        }
+        Ok(())
     }
 
     /// Removes vocabulary items that do not satisfy the document frequencies constraints or if they appear in the
